@@ -1342,13 +1342,20 @@ theorem map_delta_ids (delta : Int) (l : List Stream) :
   intro x _
   exact deltaStream_id delta x
 
-def invalidSetting (p : Nat × Nat) : Bool := p.1 == sInitialWindowSize && decide (p.2 > 2147483647)
+def invalidSetting (p : Nat × Nat) : Bool :=
+  (p.1 == sInitialWindowSize && decide (p.2 > 2147483647)) ||
+  (p.1 == sMaxFrameSize && (decide (p.2 < 16384) || decide (p.2 > 16777215)))
 
 theorem applySetting_none {st : State} {sm : Bool} {p : Nat × Nat}
     (h : applySetting st sm p = none) : invalidSetting p = true := by
   unfold applySetting at h
   split at h
-  · cases h
+  · rename_i h5
+    split at h
+    · rename_i hr
+      have hne : ¬ p.1 = sInitialWindowSize := by rw [h5]; decide
+      rcases hr with hr | hr <;> simp [invalidSetting, h5, hr, sMaxFrameSize, sInitialWindowSize]
+    · cases h
   · split at h
     · cases h
     · split at h
@@ -1360,7 +1367,6 @@ theorem applySetting_none {st : State} {sm : Bool} {p : Nat × Nat}
       · cases h
 
 theorem sim_applySetting {st st' : State} {m : Send} {sm sm' : Bool} {p : Nat × Nat}
-    (hp : p.1 = sMaxFrameSize → 16384 ≤ p.2)
     (h : SInv { (view st) with seenSettings := true } m)
     (cn : st.seenSettings = false → sm = false → m.maxConc = none)
     (heq : applySetting st sm p = some (st', sm')) :
@@ -1371,11 +1377,19 @@ theorem sim_applySetting {st st' : State} {m : Send} {sm sm' : Bool} {p : Nat ×
   unfold applySetting at heq
   split at heq
   · rename_i h5
-    cases heq
-    have hne : ¬ p.1 = sInitialWindowSize := by rw [h5]; decide
-    have hack : ackSetting m p = { m with maxFrame := p.2 } := by unfold ackSetting; rw [if_pos h5]
-    rw [hack]
-    exact ⟨by simp [invalidSetting, hne], { h with maxFrame := rfl, frameLo := hp h5 }, cn, rfl⟩
+    split at heq
+    · cases heq
+    · rename_i hr
+      cases heq
+      have hne : ¬ p.1 = sInitialWindowSize := by rw [h5]; decide
+      have hack : ackSetting m p = { m with maxFrame := p.2 } := by unfold ackSetting; rw [if_pos h5]
+      have hlo : 16384 ≤ p.2 := by omega
+      have hhi : p.2 ≤ 16777215 := by omega
+      rw [hack]
+      refine ⟨?_, { h with maxFrame := rfl, frameLo := hlo }, cn, rfl⟩
+      have e1 : decide (p.2 < 16384) = false := by simp; omega
+      have e2 : decide (p.2 > 16777215) = false := by simp; omega
+      simp [invalidSetting, hne, e1, e2]
   · rename_i h5
     split at heq
     · rename_i h3
@@ -1384,7 +1398,7 @@ theorem sim_applySetting {st st' : State} {m : Send} {sm sm' : Bool} {p : Nat ×
       have hack : ackSetting m p = { m with maxConc := some p.2 } := by
         unfold ackSetting; rw [if_neg h5, if_pos h3]
       rw [hack]
-      refine ⟨by simp [invalidSetting, hne], { h with conc := ?_, concNone := ?_ }, ?_, rfl⟩
+      refine ⟨by simp [invalidSetting, hne, h5], { h with conc := ?_, concNone := ?_ }, ?_, rfl⟩
       · intro k hk; simp only [Option.some.injEq] at hk; exact hk
       · intro hx; simp at hx
       · intro _ hx; simp at hx
@@ -1402,7 +1416,7 @@ theorem sim_applySetting {st st' : State} {m : Send} {sm sm' : Bool} {p : Nat ×
           have hih := h.initHi
           simp only [view] at hiw hih
           have hp2 : p.2 ≤ 2147483647 := by omega
-          refine ⟨by simp [invalidSetting, hbig], ?_, cn, rfl⟩
+          refine ⟨by simp [invalidSetting, hbig, h5], ?_, cn, rfl⟩
           refine { h with initWin := rfl, initHi := hp2, ids := ?_, rel := ?_, nodup := ?_, idsLt := ?_, sorted := ?sorted, oddIds := ?oddIds }
           case sorted =>
             show ((st.streams.map (deltaStream ((p.2 : Int) - (st.initialWindowSize : Int)))).map (fun (x : Stream) => x.id)).Pairwise (· < ·)
@@ -1432,7 +1446,7 @@ theorem sim_applySetting {st st' : State} {m : Send} {sm sm' : Bool} {p : Nat ×
         have hack : ackSetting m p = m := by
           unfold ackSetting; rw [if_neg h5, if_neg h3, if_neg h4]
         rw [hack]
-        exact ⟨by simp [invalidSetting, h4], h, cn, rfl⟩
+        exact ⟨by simp [invalidSetting, h4, h5], h, cn, rfl⟩
 
 
 theorem applySettings_none {vals : List (Nat × Nat)} :
@@ -1447,7 +1461,7 @@ theorem applySettings_none {vals : List (Nat × Nat)} :
       simp [List.any, applySetting_none h1]
     · simp only [List.any, ih h, Bool.or_true]
 
-theorem sim_applySettings {vals : List (Nat × Nat)} (hv : ∀ p ∈ vals, p.1 = sMaxFrameSize → 16384 ≤ p.2) :
+theorem sim_applySettings {vals : List (Nat × Nat)} :
     ∀ {st st' : State} {m : Send} {sm sm' : Bool},
     SInv { (view st) with seenSettings := true } m →
     (st.seenSettings = false → sm = false → m.maxConc = none) →
@@ -1468,15 +1482,14 @@ theorem sim_applySettings {vals : List (Nat × Nat)} (hv : ∀ p ∈ vals, p.1 =
     split at heq
     · cases heq
     · rename_i st1 sm1 h1
-      obtain ⟨a1, a2, a3, a4⟩ := sim_applySetting (hv p List.mem_cons_self) h cn h1
-      obtain ⟨b1, b2, b3, b4⟩ := ih (fun q hq => hv q (List.mem_cons_of_mem _ hq)) a2 a3 heq
+      obtain ⟨a1, a2, a3, a4⟩ := sim_applySetting h cn h1
+      obtain ⟨b1, b2, b3, b4⟩ := ih a2 a3 heq
       refine ⟨by simp [List.any, a1, b1], b2, b3, by rw [b4, a4]⟩
 
 theorem send_pending_nil {m : Send} (h : m.pending = []) : { m with pending := [] } = m := by
   cases m; simp_all
 
-theorem sim_peerSettings {st : State} {m : Send} (h : SInv (view st) m) (vals : List (Nat × Nat))
-    (hv : ∀ p ∈ vals, p.1 = sMaxFrameSize → 16384 ≤ p.2) :
+theorem sim_peerSettings {st : State} {m : Send} (h : SInv (view st) m) (vals : List (Nat × Nat)) :
     ∃ m', Send.run (m.peer (.settings vals)) ((peerSettings st vals).2.map Event.c) = .ok m' ∧
       SInv (view (peerSettings st vals).1) m' := by
   have h0 : SInv { (view st) with seenSettings := true } m := { h with concNone := by intro hx; simp at hx }
@@ -1487,15 +1500,15 @@ theorem sim_peerSettings {st : State} {m : Send} (h : SInv (view st) m) (vals : 
     have hany := applySettings_none hnone
     have : m.peer (.settings vals) = m := by
       simp only [Send.peer]
-      have : (vals.any fun p => p.1 == sInitialWindowSize && decide (p.2 > 2147483647)) = true := hany
+      have : (vals.any fun p => (p.1 == sInitialWindowSize && decide (p.2 > 2147483647)) || (p.1 == sMaxFrameSize && (decide (p.2 < 16384) || decide (p.2 > 16777215)))) = true := hany
       rw [this]; rfl
     rw [this]
     exact ⟨m, rfl, h⟩
   · rename_i st1 seenMax hsome
-    obtain ⟨b1, b2, b3, b4⟩ := sim_applySettings hv h0 cn0 hsome
+    obtain ⟨b1, b2, b3, b4⟩ := sim_applySettings h0 cn0 hsome
     have hpeer : m.peer (.settings vals) = { m with pending := [vals] } := by
       simp only [Send.peer]
-      have : (vals.any fun p => p.1 == sInitialWindowSize && decide (p.2 > 2147483647)) = false := b1
+      have : (vals.any fun p => (p.1 == sInitialWindowSize && decide (p.2 > 2147483647)) || (p.1 == sMaxFrameSize && (decide (p.2 < 16384) || decide (p.2 > 16777215)))) = false := b1
       rw [this, h.pending]; rfl
     rw [hpeer]
     refine ⟨vals.foldl ackSetting m, ?_, ?_⟩
@@ -1530,7 +1543,7 @@ theorem sim_peerSettings {st : State} {m : Send} (h : SInv (view st) m) (vals : 
 theorem sim_peer {st : State} {m : Send} (h : SInv (view st) m) (f : PFrame) (hok : f.ok) :
     ∃ m', Send.run (m.peer f) ((Conn.peer st f).2.map Event.c) = .ok m' ∧ SInv (view (Conn.peer st f).1) m' := by
   cases f with
-  | settings vals => exact sim_peerSettings h vals hok
+  | settings vals => exact sim_peerSettings h vals
   | settingsAck => exact sim_peerSettingsAck h
   | windowUpdate id inc => exact sim_peerWindowUpdate h id inc hok
   | rst id code => exact sim_peerRst h id code
